@@ -455,9 +455,13 @@ class _InternalBaseTracer(_InternalBaseTracerSuper, metaclass=MetaTracerStateMac
                     return self._make_composed_tracer(existing_ret)
                 elif my_ret is None:
                     return existing_ret
-            elif not callable(my_ret):
-                # e.g. the (type, value, traceback) argument of an 'exception' event when no
-                # handler is registered for it: never hand that to the interpreter as f_trace
+                elif my_ret is self.sys_tracer and existing_tracer is not None:
+                    # the existing tracer declined this frame: trace it for our handlers only
+                    return self._make_composed_tracer(None)
+            elif my_ret is self.sys_tracer or not callable(my_ret):
+                # keep the frame's current local trace function (which already composes with the
+                # existing tracer's local function, if any); in particular never hand the interpreter
+                # a non-callable such as the (type, value, traceback) argument of an 'exception' event
                 return None
             return my_ret
 
